@@ -64,7 +64,7 @@ class ChoiceRng:
         return self.U
 
 
-@contract("C20", "piecewise_linear_sample", native=False)
+@contract("C20", "piecewise_linear_sample", native=False, replay_with="conditionals_native")
 def piecewise_linear_sample(vc):
     g = vc.int("grid_size", lo=2)
     ns = vc.int("n_samples", lo=1)
@@ -111,7 +111,7 @@ def piecewise_linear_sample(vc):
 
 
 # ---- the 1-D conditional through a point ----------------------------------------------------------------------------
-@contract("C20", "conditional_slice", native=False)
+@contract("C20", "conditional_slice", native=False, replay_with="conditionals_native")
 def conditional_slice(vc):
     from pyvc.objlist import PosteriorGhost
     n = vc.int("n", lo=1)
@@ -174,7 +174,7 @@ def _search(vc, fname):
     return a, b, out
 
 
-@contract("C20", "binary_search_inside", native=False)
+@contract("C20", "binary_search_inside", native=False, replay_with="conditionals_native")
 def binary_search_inside(vc):
     a, b, out = _search(vc, "binary_search")
     vc.ensures("result_inside_initial_bracket", S.And(a <= out, out <= b))
